@@ -104,7 +104,7 @@ func init() {
 		"(*sync.Mutex).Lock":                   extMutexLock,
 		"(*sync.Mutex).Unlock":                 extMutexUnlock,
 		"(*sync.Mutex).TryLock":                nil,
-		"(*sync.RWMutex).Lock":                 extMutexLock,
+		"(*sync.RWMutex).Lock":                 extRWLock,
 		"(*sync.RWMutex).Unlock":               extMutexUnlock,
 		"(*sync.RWMutex).RLock":                extRLock,
 		"(*sync.RWMutex).RUnlock":              extRUnlock,
@@ -397,6 +397,20 @@ func extMutexLock(fr *frame, args []value) value {
 	return nil
 }
 
+// extRWLock: a writer announces itself before it blocks; from then on new
+// readers block too (sync.RWMutex prefers waiting writers), which is what makes
+// recursive read locking deadlock-prone.
+func extRWLock(fr *frame, args []value) value {
+	i := fr.i
+	l := i.lockOf(args[0].(*value))
+	i.yield()
+	l.waitingWriters++
+	i.blockWhile(func() bool { return l.writer != 0 || len(l.readers) > 0 })
+	l.waitingWriters--
+	l.writer = i.curThread() + 1
+	return nil
+}
+
 func extMutexUnlock(fr *frame, args []value) value {
 	i := fr.i
 	l := i.lockOf(args[0].(*value))
@@ -412,7 +426,7 @@ func extRLock(fr *frame, args []value) value {
 	i := fr.i
 	l := i.lockOf(args[0].(*value))
 	i.yield()
-	i.blockWhile(func() bool { return l.writer != 0 })
+	i.blockWhile(func() bool { return l.writer != 0 || l.waitingWriters > 0 })
 	l.readers[i.curThread()]++
 	return nil
 }
